@@ -163,7 +163,7 @@ TERMINAL = {"EVT_RELEASED": "RELEASED", "EVT_ABORTED": "ABORTED", "EVT_REJECTED"
 class Rig:
     """A real node in step mode."""
 
-    def __init__(self, role: str, policy: str = "accept", boundary=None):
+    def __init__(self, role: str, policy: str = "accept", boundary=None, gate_idle: bool = True):
         self.role = role
         self.policy = policy
         self.ctl = Controller()
@@ -209,7 +209,8 @@ class Rig:
         dul.to_user_queue = GatedQueue(self.ctl, "userq")
         assoc.dimse.msg_queue = GatedQueue(self.ctl, "msgq")
         assoc._reactor_checkpoint = GatedEvent(self.ctl, "ckpt", initially=True)
-        dul._idle_timer = GatedTimer(self.ctl, "idle", 60)
+        if gate_idle:
+            dul._idle_timer = GatedTimer(self.ctl, "idle", 60)
         self.sock = FakeSocket(assoc)
         self.sock._ready = GatedEvent(self.ctl, "conn")
         if role == "acceptor":
@@ -239,8 +240,8 @@ class Rig:
     def _install(self):
         _install_lock.acquire()
         self._old = (_assoc_mod.time, _dul_mod.time, _timer_mod.time, _evt_mod.trigger, threading.excepthook)
-        _assoc_mod.time = GatedTime(self.ctl, _time)
-        _dul_mod.time = GatedTime(self.ctl, _time)
+        _assoc_mod.time = GatedTime(self.ctl, _time, self.clock)
+        _dul_mod.time = GatedTime(self.ctl, _time, self.clock)
         _timer_mod.time = self.clock
         orig = _evt_mod.trigger
 
